@@ -132,7 +132,7 @@ def live_worker(args):
 
 def live_half(V, tier, binary):
     import collections
-    n = 6000 if tier == "quick" else 400000
+    n = 6000 if tier == "quick" else 120000
     W = vf.NPROC
     per = n // W + 1
     outs = vf.pmap(lambda w: vf.run_proc([binary, "emit", codecdrv.SEEDS, str(vf.SEED), str(w), str(per)], timeout=3600, env=vf.env_for()), list(range(W)))
@@ -174,7 +174,7 @@ def main(tier, replay=None):
             codecdrv.add_crash(V, crash, args, "replay")
         V.finish({"evaluations": 1, "distinct_nontrivial": 2, "rule": "replay", "samples": [w]}, "exploration", [], {})
     # ~28 parser applications per mutated element
-    ncases = (150000 // 28 if tier == "quick" else 10000000 // 28) // W + 1
+    ncases = (150000 // 28 if tier == "quick" else 3000000 // 28) // W + 1
     jobs = [("c02", codecdrv.SEEDS, vf.SEED, w, ncases) for w in range(W)]
     res = vf.pmap(lambda a: (a, codecdrv.run_worker_restarting(binary, a, timeout=7200 if tier == "quick" else 28000, heavy=(tier != "quick"))), jobs)
     parsers, ops = {}, {}
